@@ -867,7 +867,7 @@ func scVoteRace(d *Driver) {
 			allPreVote = false
 		}
 	}
-	if allPreVote && len(ups) == 3 && pct(d.r, 50) {
+	if allPreVote && len(ups) == 3 && pct(d.r, 90) {
 		scLateVote(d, ups)
 	}
 	if pct(d.r, 50) {
